@@ -566,8 +566,8 @@ def plan(tier, seed):
     disc_pool, cont_pool = concat_pool()
     for op_i in range(len(CONCAT_OPS)):
         chunks.append({'kind': 'concat', 'op': op_i})
-    nseeds = 3 if tier == 'quick' else 8
-    seeds = [0] + [(int(seed) * 7 + 11 * (i + 1)) % 4000 + 1 for i in range(nseeds - 1)]
+    nseeds = 6 if tier == 'quick' else 12
+    seeds = list(range(nseeds - 2)) + [(int(seed) * 7 + 11 * (i + 1)) % 4000 + 1 for i in range(2)]
     for i in range(0, len(names), 3):
         chunks.append({'kind': 'det', 'ops': names[i:i + 3], 'seeds': seeds})
     return {
